@@ -482,6 +482,16 @@ def _per_instance(rewards, n):
     return [max(rewards[i * k:(i + 1) * k]) for i in range(n)]
 
 
+def _same_params(a, b) -> bool:
+    """the same module, or a copy with identical parameters and buffers (setup() may re-copy the same policy)"""
+    if a is b:
+        return True
+    if a is None or b is None:
+        return False
+    sa, sb = a.state_dict(), b.state_dict()
+    return list(sa.keys()) == list(sb.keys()) and all(torch.equal(sa[k], sb[k]) for k in sa)
+
+
 def _rollout_baseline(model):
     from rl4co.models.rl.reinforce.baselines import RolloutBaseline, WarmupBaseline
 
@@ -598,14 +608,29 @@ def _baseline(run):
         ref = R.RefList(w["rows"])
         if w["policy"] is not None:
             keep.append(w["policy"])
+        # the values read during this epoch have to come from the baseline policy that is in force during this
+        # epoch: a training set wrapped before the baseline was challenged (and replaced) carries stale values
+        if w["active"] and not _same_params(getattr(rb, "policy", None), w["policy"]):
+            run.violate(scope, "extra_is_baseline_reward",
+                        f"epoch {ep}: the training set was wrapped with a baseline policy that has been replaced since; "
+                        f"the attached values are not the rewards of the baseline policy in force",
+                        constraint="extra_from_replaced_baseline", epoch=ep, n=N, env=name,
+                        baseline=plan["baseline"])
+            raise StopRun()
         with run.guard(scope, "train_dataloader", epoch=ep):
             dl = model.train_dataloader()
+        noised = False
         passes = 1 + run.chooser.pick(2)
         for ps in range(passes):
             torch.manual_seed(run.streams.torch_seed(f"train-{ep}-{ps}"))
             with run.guard(scope, "iterate train_dataloader", epoch=ep, batch_size=bs, n=N):
                 batches = [_batch_dict(b) for b in dl]
             run.tick(len(batches))
+            if not noised and plan["noise_scale"] > 0:
+                # stand-in for the epoch's optimiser steps on the live policy: the values attached to the training
+                # set stay those of the *frozen* baseline policy (checked below, after the steps)
+                PU.perturb_policy(policy.inner, plan["noise"][ep % len(plan["noise"])], plan["noise_scale"])
+                noised = True
             has_extra = [("extra" in b) for b in batches]
             if w["active"] and not all(has_extra):
                 run.violate(scope, "extra_missing", f"epoch {ep}: the rollout baseline is active but "
@@ -673,10 +698,12 @@ def _baseline(run):
                         run.probe("indeterminate_policy_batch_dependence")
                         continue
                     owner = [o.index for o in ref.items if abs(solo(w["policy"], o.row) - got) <= _tol(got)]
+                    live = " [the baseline policy is the live policy object, not a frozen copy]" \
+                        if w["policy"] is policy else ""
                     run.violate(scope, "extra_is_baseline_reward",
                                 f"epoch {ep} batch {bi} row {ri}: extra {got!r} travels with instance {it.index} "
                                 f"whose baseline-policy greedy reward is {want!r}"
-                                + (f" (it is the reward of instance {owner[0]})" if owner else ""),
+                                + (f" (it is the reward of instance {owner[0]})" if owner else "") + live,
                                 constraint="extra", epoch=ep, got=got, want=want, instance=it.index,
                                 belongs_to=owner[:3], batch_size=bs, eval_bs=ebs, n=N, shuffle=plan["shuffle"],
                                 dataset=plan["dataset_cls"], env=name, baseline=plan["baseline"])
@@ -704,9 +731,7 @@ def _baseline(run):
                 run.probe("obs_eval_batching_unexpected")
             if N % ebs and ebs < N:
                 run.probe("eval_partial_batch")
-        # ---- stand-in for the epoch's optimiser steps, then the real epoch-end hook -------------------
-        if plan["noise_scale"] > 0:
-            PU.perturb_policy(policy.inner, plan["noise"][ep % len(plan["noise"])], plan["noise_scale"])
+        # ---- (the stand-in for the epoch's optimiser steps ran after the first read) then the real epoch-end hook
         # perturbation: a validation pass between epochs the way hand-written loops (and older Lightning) do it:
         # model.eval() ... model.train().  Both propagate to every sub-module, the frozen baseline policy included;
         # the values attached at the next wrap are still the baseline policy's inference-mode rewards
